@@ -18,6 +18,7 @@ UNIT_MAP = {
     'names': ['name_resolution'],
     'error_trace': ['error_trace'],
     'emission': ['decode_walk'],
+    'variables': ['closure_capture', 'decode_walk'],
     'scan:error_site_address': ['error_trace'],
     'card_index': ['error_trace'],
     'card_home': ['error_trace'],
